@@ -1034,6 +1034,13 @@ func (e *Env) trCall(x *ECall) (Term, Ty) {
 		k, _ := arg(1)
 		v, _ := arg(2)
 		return Term{sto(s.S, k.S, v.S), s.Sort}, ty
+	case "zero":
+		tl, ok := x.Args[0].(*ETypeLit)
+		if !ok {
+			g.fail("zero needs type(T)")
+		}
+		ty := g.W.resolveType(e.pkg, tl.T, g)
+		return g.zero(ty.G), ty
 	case "emptyset":
 		tl, ok := x.Args[0].(*ETypeLit)
 		if !ok {
